@@ -271,7 +271,7 @@ __CPROVER_requires(nitro_exc == 0 && O_OBJ_OR_OK(option_prepare, self))
 __CPROVER_assigns(self->value_has, self->value_, self->b.dirty_)
 __CPROVER_ensures(nitro_exc == 0 && !self->value_has && !self->b.dirty_);                            /*@ nothing_left_of_an_earlier_parse */
 void option_check(struct ooption *self)
-__CPROVER_requires(nitro_exc == 0 && O_OBJ_OR_OK(option_check, self) && (self->value_has == self->b.dirty_ || !self->b.dirty_))
+__CPROVER_requires(nitro_exc == 0 && O_OBJ_OR_OK(option_check, self) && (!self->b.dirty_ || self->value_has))
 __CPROVER_assigns(self->value_has, self->value_, self->b.dirty_, nitro_exc, g_env_name)
 __CPROVER_ensures(nitro_exc == 0 || nitro_exc == EXC_PARSING_ERROR)
 __CPROVER_ensures(__CPROVER_old(self->value_has) ==> (nitro_exc == 0 && self->value_has && self->value_.id == __CPROVER_old(self->value_.id) && self->b.dirty_ == __CPROVER_old(self->b.dirty_)))   /*@ command_line_wins */
@@ -418,5 +418,71 @@ __CPROVER_ensures(nitro_exc == 0)
 __CPROVER_ensures(g_oi < self->n_opts ==> (!self->opts[g_oi].value_has && !self->opts[g_oi].b.dirty_))                                 /*@ every_option_forgets_the_earlier_parse */
 __CPROVER_ensures(g_oi < self->n_mopts ==> (self->mopts[g_oi].value_.count == 0 && !self->mopts[g_oi].b.dirty_))                      /*@ every_multi_option_forgets_the_earlier_parse */
 __CPROVER_ensures(g_oi < self->n_toggles ==> (self->toggles[g_oi].given_ == 0 && !self->toggles[g_oi].b.dirty_));                     /*@ every_toggle_forgets_the_earlier_parse */
+
+/* validate_options: every declared option, multi-option and toggle gets its check() (C03 decision table) */
+#define OPT_CHECK_PRE(k) (self->n_opts <= (k) || !self->opts[k].b.dirty_ || self->opts[k].value_has)
+#define MOPT_CHECK_PRE(k) (self->n_mopts <= (k) || self->mopts[k].value_.count <= OSTR_MAXLEN)
+#define O_OLD(k, f) __CPROVER_old(self->opts[k].f)
+#define OPT_FROM_ENV(k) (!O_OLD(k, value_has) && self->opts[k].b.env_.len != 0 && g_env_value.len != 0)
+#define OPT_RAISES(k) (self->n_opts > (k) && !O_OLD(k, value_has) && !OPT_FROM_ENV(k) && !self->opts[k].default_has && !self->opts[k].is_optional_)
+#define OPT_CHECKED(k) (self->n_opts <= (k) || ( \
+    (O_OLD(k, value_has) ==> (self->opts[k].value_has && self->opts[k].value_.id == O_OLD(k, value_.id) && self->opts[k].b.dirty_ == O_OLD(k, b.dirty_))) && \
+    (OPT_FROM_ENV(k) ==> (self->opts[k].value_has && self->opts[k].value_.id == g_env_value.id && self->opts[k].b.dirty_)) && \
+    ((!O_OLD(k, value_has) && !OPT_FROM_ENV(k) && self->opts[k].default_has) ==> (self->opts[k].value_has && self->opts[k].value_.id == self->opts[k].default_.id && self->opts[k].b.dirty_ == O_OLD(k, b.dirty_))) && \
+    ((!O_OLD(k, value_has) && !OPT_FROM_ENV(k) && !self->opts[k].default_has) ==> !self->opts[k].value_has)))
+#define M_OLD(k, f) __CPROVER_old(self->mopts[k].f)
+#define MOPT_FROM_ENV(k) (M_OLD(k, value_.count) == 0 && self->mopts[k].b.env_.len != 0 && g_env_value.len != 0)
+#define MOPT_RAISES(k) (self->n_mopts > (k) && M_OLD(k, value_.count) == 0 && !MOPT_FROM_ENV(k) && !self->mopts[k].default_has && !self->mopts[k].is_optional_)
+#define MOPT_CHECKED(k) (self->n_mopts <= (k) || ( \
+    (M_OLD(k, value_.count) != 0 ==> (self->mopts[k].value_.count == M_OLD(k, value_.count) && self->mopts[k].value_.w_id == M_OLD(k, value_.w_id) && self->mopts[k].b.dirty_ == M_OLD(k, b.dirty_))) && \
+    (MOPT_FROM_ENV(k) ==> (self->mopts[k].value_.count == g_pieces_total && (g_w < g_pieces_total ==> self->mopts[k].value_.w_id == g_piece_w_id))) && \
+    ((M_OLD(k, value_.count) == 0 && !MOPT_FROM_ENV(k) && self->mopts[k].default_has) ==> (self->mopts[k].value_.count == self->mopts[k].default_.count && self->mopts[k].value_.w_id == self->mopts[k].default_.w_id && self->mopts[k].b.dirty_ == M_OLD(k, b.dirty_)))))
+#define T_OLD(k, f) __CPROVER_old(self->toggles[k].f)
+#define TOG_FROM_ENV(k) (!T_OLD(k, b.dirty_) && self->toggles[k].b.env_.len != 0 && g_env_value.len != 0)
+#define TOG_RAISES(k) (self->n_toggles > (k) && TOG_FROM_ENV(k) && !WORD_TRUTHY(&g_env_value) && !WORD_FALSY(&g_env_value))
+#define TOG_CHECKED(k) (self->n_toggles <= (k) || ( \
+    (T_OLD(k, b.dirty_) ==> (self->toggles[k].given_ == T_OLD(k, given_) && self->toggles[k].b.dirty_)) && \
+    (TOG_FROM_ENV(k) ==> (self->toggles[k].given_ == (WORD_TRUTHY(&g_env_value) ? 1 : 0) && self->toggles[k].b.dirty_)) && \
+    ((!T_OLD(k, b.dirty_) && !TOG_FROM_ENV(k)) ==> (self->toggles[k].given_ == self->toggles[k].default_ && !self->toggles[k].b.dirty_))))
+void parser_validate_options(struct oparser *self)
+__CPROVER_requires(PARSER_PRE(parser_validate_options) && OPT_CHECK_PRE(0) && OPT_CHECK_PRE(1) && MOPT_CHECK_PRE(0) && MOPT_CHECK_PRE(1) && g_pieces_total <= OSTR_MAXLEN)
+__CPROVER_assigns(self->opts, self->mopts, self->toggles, nitro_exc, g_env_name)
+__CPROVER_ensures(nitro_exc == 0 || nitro_exc == EXC_PARSING_ERROR)                                                       /*@ only_the_user_input_error */
+__CPROVER_ensures((nitro_exc != 0) == (OPT_RAISES(0) || OPT_RAISES(1) || MOPT_RAISES(0) || MOPT_RAISES(1) || TOG_RAISES(0) || TOG_RAISES(1)))   /*@ fails_iff_a_required_option_has_no_source_or_an_environment_word_is_unparsable */
+__CPROVER_ensures(nitro_exc == 0 ==> (OPT_CHECKED(0) && OPT_CHECKED(1)))                                                  /*@ options_ranked_command_line_environment_default */
+__CPROVER_ensures(nitro_exc == 0 ==> (MOPT_CHECKED(0) && MOPT_CHECKED(1)))                                                /*@ multi_options_ranked_command_line_environment_default */
+__CPROVER_ensures(nitro_exc == 0 ==> (TOG_CHECKED(0) && TOG_CHECKED(1)));                                                 /*@ toggles_ranked_command_line_environment_default */
+
+/* check_parser_consistency: refuses (developer error) iff two declared options share a letter */
+static inline nbool parser_dup_letters_v(struct oparser p)
+{
+    size_t s[6];
+    s[0] = (p.n_opts > 0 && p.opts[0].b.short_.len != 0) ? LETTER_SLOT(p.opts[0].b.short_.b0) : NITRO_NL;
+    s[1] = (p.n_opts > 1 && p.opts[1].b.short_.len != 0) ? LETTER_SLOT(p.opts[1].b.short_.b0) : NITRO_NL;
+    s[2] = (p.n_mopts > 0 && p.mopts[0].b.short_.len != 0) ? LETTER_SLOT(p.mopts[0].b.short_.b0) : NITRO_NL;
+    s[3] = (p.n_mopts > 1 && p.mopts[1].b.short_.len != 0) ? LETTER_SLOT(p.mopts[1].b.short_.b0) : NITRO_NL;
+    s[4] = (p.n_toggles > 0 && p.toggles[0].b.short_.len != 0) ? LETTER_SLOT(p.toggles[0].b.short_.b0) : NITRO_NL;
+    s[5] = (p.n_toggles > 1 && p.toggles[1].b.short_.len != 0) ? LETTER_SLOT(p.toggles[1].b.short_.b0) : NITRO_NL;
+#define SAME(a, b) (s[a] != NITRO_NL && s[a] == s[b])
+    return SAME(0, 1) || SAME(0, 2) || SAME(0, 3) || SAME(0, 4) || SAME(0, 5) || SAME(1, 2) || SAME(1, 3) || SAME(1, 4) || SAME(1, 5) ||
+           SAME(2, 3) || SAME(2, 4) || SAME(2, 5) || SAME(3, 4) || SAME(3, 5) || SAME(4, 5);
+#undef SAME
+}
+#define DECL_LETTERS_IN_TABLE (LETTERS_WF && (self->n_opts <= 0 || BASE_WF_V(self->opts[0].b)) && (self->n_opts <= 1 || BASE_WF_V(self->opts[1].b)) && (self->n_mopts <= 0 || BASE_WF_V(self->mopts[0].b)) && \
+    (self->n_mopts <= 1 || BASE_WF_V(self->mopts[1].b)) && (self->n_toggles <= 0 || BASE_WF_V(self->toggles[0].b)) && (self->n_toggles <= 1 || BASE_WF_V(self->toggles[1].b)))
+void parser_check_consistency(struct oparser *self)
+__CPROVER_requires(PARSER_PRE(parser_check_consistency) && DECL_LETTERS_IN_TABLE)
+__CPROVER_assigns(nitro_exc)
+__CPROVER_ensures(nitro_exc == 0 || nitro_exc == EXC_PARSER_ERROR)
+__CPROVER_ensures((nitro_exc != 0) == parser_dup_letters_v(*self));                                                       /*@ refuses_to_parse_iff_two_options_share_a_letter */
+
+void parser_greedy_postionals(struct oparser *self, nbool enabled)
+__CPROVER_requires(nitro_exc == 0 && O_OBJ(self))
+__CPROVER_assigns(self->greedy_positionals_)
+__CPROVER_ensures(self->greedy_positionals_ == enabled);
+void parser_accept_positionals(struct oparser *self, size_t amount)
+__CPROVER_requires(nitro_exc == 0 && O_OBJ(self))
+__CPROVER_assigns(self->allowed_positionals_)
+__CPROVER_ensures(self->allowed_positionals_ == amount);
 #pragma CPROVER check pop
 #endif
